@@ -446,6 +446,13 @@ func (rr *rulesRunner) handleCommentMatch(rule goCommentRule, m matchData) bool 
 }
 
 func (rr *rulesRunner) handleMatch(rule goRule, m gogrep.MatchData) bool {
+	if isAbsentNode(m.Node) {
+		// A pattern made of $*xs parts only also matches the empty list
+		// (an empty block, a call without arguments): there is nothing
+		// to report and no position to report it at.
+		return false
+	}
+
 	if rule.filter.fn != nil || rule.do != nil {
 		rr.filterParams.match = matchData{match: m}
 	}
